@@ -489,7 +489,7 @@ class PlyLexer:
         return t
 
     # Found at http://ostermiller.org/findcomment.html
-    @TOKEN(r"/\*([^*]|[\r\n]|(\*+([^*/]|[\r\n])))*\*+/\n?")
+    @TOKEN(r"/\*([^*]|(\*+[^*/]))*\*+/\n?")
     def t_COMMENT_MULTILINE(self, t: LexToken) -> LexToken:
         t.lexer.lineno += t.value.count("\n")
         return t
